@@ -7,6 +7,7 @@ import (
 	"fmt"
 	"os"
 	"sort"
+	"strings"
 
 	"github.com/lavanet/lava/v5/protocol/chainlib"
 	"github.com/lavanet/lava/v5/protocol/chainlib/extensionslib"
@@ -186,7 +187,7 @@ func run(run *ev.Run) {
 	if thorough {
 		fullBelow = 1300
 	}
-	var evals, nontrivial, marked, unmarked, skipped, errs int64
+	var evals, nontrivial, marked, unmarked, skipped, errs, batchEvals int64
 	seenNontrivial := map[string]bool{}
 	mismatchByKey := map[string]int64{}
 	mismatchShapes := map[string]string{} // key/requested-class -> first example
@@ -269,8 +270,48 @@ func run(run *ev.Run) {
 					})
 				}
 			}
+			// two-member batches whose earliest and latest requested blocks differ: a numeric block next to the "latest"
+			// tag or to the latest block itself, in both orders. The statement speaks of the message's earliest requested
+			// block: the batch needs archive iff its numeric member alone does.
+			// (only with a known latest block: with latest == 0 batches lose the archive mark of a member - that is the
+			// recorded C31 finding archive-lost-in-batch and is not repeated here)
+			for _, b := range blocks {
+				if latest == 0 {
+					break
+				}
+				old := request{method: "eth_getBalance", kind: kNumeric, block: b}
+				for _, other := range []request{{method: "eth_getBalance", kind: kLatest}, {method: "eth_getBalance", kind: kNumeric, block: L}} {
+					if other.kind == kNumeric && (L <= 0 || b >= L) {
+						continue
+					}
+					for _, order := range [][2]request{{old, other}, {other, old}} {
+						body := "[" + order[0].json() + "," + strings.Replace(order[1].json(), `"id":1`, `"id":2`, 1) + "]"
+						msg, err := p.ParseMsg("", []byte(body), "POST", nil, extensionslib.ExtensionInfo{LatestBlock: latest})
+						batchEvals++
+						if err != nil {
+							errs++
+							continue
+						}
+						want := expected(old, latest, rule)
+						got := hasArchive(msg)
+						if want != got {
+							k := "batch:" + key(old, want, got, latest)
+							if b == 0 {
+								k += ":genesis-block" // block 0 is the message container's "earliest not set" value
+							}
+							mismatchByKey[k]++
+							run.Violate(ev.Violation{
+								Key:    k,
+								What:   fmt.Sprintf("batch of eth_getBalance(0x%x) and eth_getBalance(%s) latest=%d rule=%d: archive expected %v (the numeric member alone gives that), parser says %v", b, kindName[other.kind], latest, rule, want, got),
+								Replay: map[string]interface{}{"rule": rule, "latest_block": latest, "request": body, "expected_archive": want, "got_archive": got},
+							})
+						}
+					}
+				}
+			}
 		}
 	}
+	run.Set("batch_evaluations", batchEvals)
 	run.Set("evaluations", evals)
 	run.Set("distinct_nontrivial", nontrivial)
 	run.Set("marked_archive", marked)
@@ -281,7 +322,7 @@ func run(run *ev.Run) {
 	run.Set("skipped_block_not_as_sent", skipped)
 	run.Set("rule", "every (rule distance, latest block, method, requested block) of the grid is parsed by the real JsonRPCChainParser (ETH1 spec, archive allowed, no extension override) and GetExtensions() is compared with the statement's formula; non-trivial = distinct cases with a numeric requested block and a known latest block (the distance arithmetic decides)")
 	run.Set("exhaustive", errs == 0 && skipped == 0)
-	bound := fmt.Sprintf("rule in %v; %d latest-block values (%d..%d); methods eth_call, eth_getBalance (+ net_version, eth_blockNumber); requested in {earliest, latest, pending, safe, finalized, omitted, numeric boundary set around 0, latest-rule, latest-126, latest}", rules, len(latests), latests[0], latests[len(latests)-1])
+	bound := fmt.Sprintf("rule in %v; %d latest-block values (%d..%d); methods eth_call, eth_getBalance (+ net_version, eth_blockNumber); requested in {earliest, latest, pending, safe, finalized, omitted, numeric boundary set around 0, latest-rule, latest-126, latest}; plus two-member batches (numeric block, latest tag / latest block) in both orders", rules, len(latests), latests[0], latests[len(latests)-1])
 	if fullBelow > 0 {
 		bound += fmt.Sprintf(" and every numeric block 0..latest+1 for latest <= %d", fullBelow)
 	}
